@@ -5,6 +5,7 @@ import sim_decider as SD
 from common import zz, cbool, clist, cnat, zs
 
 IMPORTS = SD.IMPORTS + " Model.Engine"
+IMPORTS_POOL = IMPORTS + " Model.EnginePool"
 
 
 class Counter:
@@ -29,7 +30,7 @@ def make_engine(ed, handler_kind="blocking", workers=2, gate=None):
     from bobocep.cep.gen.timestamp import BoboGenTimestamp
     from bobocep.cep.phenom.phenom import BoboPhenomenon
 
-    log = dict(seen=[], complex=[], execs=[], aevents=[], fwd=[], completed=[], halted=[])
+    log = dict(seen=[], complex=[], execs=[], aevents=[], fwd=[], completed=[], halted=[], finished=[])
     cnt = Counter()
 
     class IdGen(BoboGenEventID):
@@ -50,7 +51,11 @@ def make_engine(ed, handler_kind="blocking", workers=2, gate=None):
         def execute(self, event):
             log["execs"].append((self.code, PL.ev_code(event)))
             if gate is not None:
-                gate.wait(10)
+                if hasattr(gate, "wait_for"):
+                    gate.wait_for(PL.ev_code(event))      # one gate per job: the harness chooses which job finishes
+                else:
+                    gate.wait(10)
+            log["finished"].append(PL.ev_code(event))
             return self.ok, self.data
 
     cfg = ed["cfg"]
@@ -160,3 +165,217 @@ def op_coq(op):
 
 def case_coq(ed, ops):
     return "(%s, %s)" % (edesc_coq(ed), clist([op_coq(o) for o in ops]))
+
+
+# ---------------------------------------------------------------------------------------------------------
+# the engine on the real thread-pool handler, completion order chosen by the harness (Model/EnginePool.v)
+class Gates:
+    """One gate per job (keyed by the complex event's id code): the action's execute() blocks in its worker
+    thread until the harness opens the gate, so `Complete k` is an operation of the harness."""
+
+    def __init__(self):
+        import threading
+        self._lock = threading.Lock()
+        self._ev = {}
+        self._all = False
+
+    def _get(self, eid):
+        import threading
+        with self._lock:
+            if eid not in self._ev:
+                self._ev[eid] = threading.Event()
+                if self._all:
+                    self._ev[eid].set()
+            return self._ev[eid]
+
+    def wait_for(self, eid):
+        self._get(eid).wait(30)
+
+    def open(self, eid):
+        self._get(eid).set()
+
+    def open_all(self):
+        with self._lock:
+            self._all = True
+            evs = list(self._ev.values())
+        for e in evs:
+            e.set()
+
+
+def close_pool(handler):
+    try:
+        handler.close()
+    except Exception:
+        pass
+    pool = getattr(handler, "_pool", None)
+    if pool is not None:
+        try:
+            pool.terminate()
+            pool.join()
+        except Exception:
+            pass
+
+
+def _wait(pred, limit):
+    import time
+    t0 = time.time()
+    while not pred():
+        if time.time() - t0 > limit:
+            return False
+        time.sleep(0.0005)
+    return True
+
+
+class PoolRun:
+    """A real BoboEngine on BoboActionHandlerMultithreading(workers).  Observed from outside only: task / handler
+    size(), subscriber callbacks, BoboAction.execute calls, and the calls the forwarder makes on the handler
+    (handle / get_handler_response are wrapped on the instance to be COUNTED, they are not changed)."""
+
+    def __init__(self, ed, workers):
+        self.gates = Gates()
+        self.workers = workers
+        self.engine, self.handler, self.log = make_engine(ed, handler_kind="thread", workers=workers, gate=self.gates)
+        self.submitted = []      # complex-event codes handed to handler.handle, in call order
+        self.inflight = []       # of those, not yet completed (submission order)
+        self.responses = []      # complex-event code of every response the forwarder obtained, in order
+        self.lost = 0
+        h = self.handler
+        orig_handle, orig_get = h.handle, h.get_handler_response
+
+        def handle(action, event):
+            r = orig_handle(action=action, event=event)
+            self.submitted.append(PL.ev_code(event))
+            self.inflight.append(PL.ev_code(event))
+            return r
+
+        def get_handler_response():
+            r = orig_get()
+            if r is not None:
+                self.responses.append(PL.ev_code(r.complex_event))
+            return r
+        h.handle, h.get_handler_response = handle, get_handler_response
+
+    def running(self):
+        return min(len(self.inflight), self.workers)
+
+    def settle(self):
+        """every job that has a worker has entered execute() (so the execs log is not racing with us)"""
+        want = len(self.submitted) - len(self.inflight) + self.running()
+        _wait(lambda: len(self.log["execs"]) >= want, 5.0)
+
+    def complete(self, k):
+        """the k-th in-flight job finishes (k < running()); wait until its response is in the handler's queue"""
+        if k >= self.running():
+            return False
+        eid = self.inflight.pop(k)
+        before = self.handler.size()
+        self.gates.open(eid)
+        if not _wait(lambda: self.handler.size() > before, 5.0):
+            self.lost += 1
+        self.settle()
+        return True
+
+    def obs(self):
+        e, lg = self.engine, self.log
+        return [-5] + sizes(e, self.handler) + [len(self.inflight), len(lg["seen"]), len(lg["complex"]),
+                                                len(self.submitted), len(lg["aevents"])]
+
+    def apply(self, op):
+        """-> the op as performed (a `complete` draw is resolved to an in-range index, or to an out-of-range
+        one that is a no-op on both sides when nothing is running)"""
+        e = self.engine
+        if op[0] == "add":
+            e.receiver.add_data(None if op[1] == -1 else op[1])
+        elif op[0] == "update":
+            e.update()
+            self.settle()
+        elif op[0] == "complete":
+            n = self.running()
+            if n:
+                k = op[1] % n
+                self.complete(k)
+            else:
+                k = op[1] % 3                           # nothing in flight: an index past the end, a no-op
+            op = ("complete", k)
+        else:
+            n = op[1]
+            e.decider.on_distributed_update([PL.make_ser(r) for r in n["comp"]], [PL.make_ser(r) for r in n["halt"]],
+                                            [PL.make_ser(r) for r in n["upd"]])
+        return op
+
+    def final(self):
+        lg = self.log
+        resp = self.responses
+        aev_index = {id(e): i for i, e in enumerate(lg["aevents"])}
+
+        def resp_of(e):
+            i = aev_index[id(e)]
+            return resp[i] if i < len(resp) else -1
+        out = sizes(self.engine, self.handler)
+        out += PL.enc_list(enc_ev, lg["seen"])
+        out += PL.enc_list(lambda x: enc_ev(x[0]) + [1 if x[1] else 0], lg["complex"])
+        # execute() starts of jobs dispatched in the same update race with each other: compare in complex-event
+        # order (= the order of handler.handle calls, which is what the model logs)
+        out += PL.enc_list(lambda x: [x[0], x[1]], sorted(lg["execs"], key=lambda x: x[1]))
+        out += PL.enc_list(lambda e: enc_ev(e) + [int(e.action_name[3:]), 1 if e.success else 0, resp_of(e)], lg["aevents"])
+        return out
+
+    def quiet(self):
+        return sum(sizes(self.engine, self.handler)) == 0 and not self.inflight
+
+    def close(self):
+        self.gates.open_all()
+        close_pool(self.handler)
+
+
+def run_pool_ops(ed, ops, workers, drain_cap=40, resolved=False):
+    """ops over add / update / complete / remote, then a drain phase (complete the oldest job, update) whose
+    operations are appended, so that the logs compared at the end are complete.
+    -> (encoding, ops as performed, PoolRun (closed))"""
+    pr = PoolRun(ed, workers)
+    out, done = [], []
+    try:
+        for op in ops:
+            if resolved and op[0] == "complete":
+                if op[1] < pr.running():
+                    pr.complete(op[1])
+                op2 = op
+            else:
+                op2 = pr.apply(op)
+            done.append(op2)
+            out += pr.obs()
+        if not resolved:
+            n = 0
+            while not pr.quiet() and n < drain_cap:
+                n += 1
+                if pr.inflight:
+                    pr.complete(0)
+                    done.append(("complete", 0))
+                    out += pr.obs()
+                pr.engine.update()
+                pr.settle()
+                done.append(("update",))
+                out += pr.obs()
+            while pr.inflight:          # a self-feeding case that does not drain: at least let every job run
+                pr.complete(0)
+                done.append(("complete", 0))
+                out += pr.obs()
+        pr.settle()
+        out += pr.final()
+    finally:
+        pr.close()
+    return out, done, pr
+
+
+def pop_coq(op):
+    if op[0] == "add":
+        return "(PAdd %s)" % zz(op[1])
+    if op[0] == "update":
+        return "PUpdate"
+    if op[0] == "complete":
+        return "(PComplete %s)" % cnat(op[1])
+    return "(PRemote %s)" % PL.note_coq(op[1])
+
+
+def pool_case_coq(ed, ops):
+    return "(%s, %s)" % (edesc_coq(ed), clist([pop_coq(o) for o in ops]))
